@@ -26,6 +26,7 @@ zzv=$v; F st; F "$(set; echo .)"
 alias al="$v" 2>/dev/null && { F al; F "$(alias al; echo .)"; }
 trap -- "$v" USR2; F tr; F "$(trap -p USR2; echo .)"
 F xt; F "$( { set -x; : "$v"; set +x; } 2>&1; echo .)"
+if [ "${#v}" -ne 3 ]; then declare -rx rxv="$v"; F dr; F "$(declare -p rxv; echo .)"; F Ar; F "${rxv@A}"; fi
 '''
 
 CONSUMER = {
@@ -36,6 +37,9 @@ CONSUMER = {
     "dm": 'eval "$TEXT"; for k in "${!m[@]}"; do printf \'%s\\0\' "$k" "${m[$k]}"; done',
     "ex": 'eval "$TEXT" 2>/dev/null; printf \'%s\\0\' "${e-<unset>}"; declare -p e 2>/dev/null | grep -c -- "-[a-zA-Z]*x" ',
     "st": 'eval "$TEXT" 2>/dev/null; printf \'%s\\0\' "${zzv-<unset>}"',
+    # attributes travel with the declaration: the value, and both letters r and x
+    "dr": 'eval "$TEXT"; a=${rxv@a}; case $a in *r*) case $a in *x*) a=rx;; esac;; esac; printf \'%s\\0\' "${rxv-<unset>}" "$a"',
+    "Ar": 'eval "$TEXT"; a=${rxv@a}; case $a in *r*) case $a in *x*) a=rx;; esac;; esac; printf \'%s\\0\' "${rxv-<unset>}" "$a"',
 }
 
 
@@ -106,8 +110,10 @@ def run(tier):
         if crashed(r) or r["timeout"]:
             v.violation("crash:%r" % val, {"kind": "shell crashed or hung while quoting", "value": val, "stderr": r["err"][-400:]})
             continue
-        for form in ("q", "Q", "A", "dp", "da", "dm", "ex", "st", "al", "tr", "xt"):
+        for form in ("q", "Q", "A", "dp", "da", "dm", "ex", "st", "al", "tr", "xt", "dr", "Ar"):
             if form not in forms:
+                if form in ("dr", "Ar") and len(val) == 3:
+                    continue
                 if form == "dm" and val == "":
                     continue
                 if form == "al" and ("=" in val or val == ""):
@@ -177,6 +183,8 @@ def run(tier):
             exp = ["2", val, "z"]
         elif form == "dm":
             exp = [val, val]
+        elif form in ("dr", "Ar"):
+            exp = [val, "rx"]
         elif form == "ex":
             exp = None
         else:
@@ -192,7 +200,7 @@ def run(tier):
         "states": states, "transitions": states, "traces_validated_against_impl": len(word_records),
         "evaluations": len(produced) + nevals, "distinct_nontrivial": sum(1 for x in vals if any(c in x for c in "'\"\\$`! \n\r\x01")),
         "rule": "values = every string of <= 3 characters over %r, every value starting with one of %r, and %d seeded random strings of 4-40 characters; forms = printf %%q, ${v@Q}, "
-                "${v@A}, declare -p (scalar, indexed element, associative key+value), export -p, set, alias, trap -p, set -x trace; each rendering is read by Quote.tla (word forms) and "
+                "${v@A}, declare -p (scalar, indexed element, associative key+value; both also for a readonly exported variable, attributes included), export -p, set, alias, trap -p, set -x trace; each rendering is read by Quote.tla (word forms) and "
                 "eval'ed in a fresh brush and a fresh bash; non-trivial = the value contains a character that needs quoting" % ("".join(ALPHA), "".join(LEAD), 300 if tier == "quick" else 20000),
         "values": len(vals), "word_form_records": len(word_records), "eval_round_trips": nevals, "exhaustive": True,
         "samples": [{"form": r0["form"], "value": r0["v"], "text": r0["text"]} for r0 in word_records[:: max(1, len(word_records) // 3)][:3]],
